@@ -40,6 +40,8 @@ SPECIAL = [
     "$.items[?@.price < $.limit].name", "$..[?@.a == $.a]", "$[?@[?@.a > $.limit]]", "$..[?count(@.*) > $.n]", "$[?match(@.s, $.p)]",
     "$.items[?@.price < $.limit]..*", "$..[?@.id]", "$[?search(@.name, 'a')].name", "$[?match(@.name, '[ab].*')]", "$.items[*].name",
     "$..*", "$[?length(@.name) == $.n]", "$..[*]", "$..name", "$..[0]", "$..items[*]", "$..[?@.name]", "$.items..*", "$..a", "$..*..id",
+    # slices whose result depends on the length of each array they meet
+    "$.items[:-1].id", "$..[1:-1]", "$.items[0:-1:1].name", "$..items[:-1]", "$[:-1]..id", "$..[-2:]", "$.items[1:3].id", "$..[::-1]",
 ]
 
 
